@@ -543,10 +543,13 @@ func (self *FieldMask) ForEachChild(scanner func(strKey string, intKey int, chil
 		return
 	}
 	switch self.typ {
-	case FtScalar:
+	case FtInvalid, FtScalar:
 		return
 	case FtStruct:
 		fm := self.fdMask
+		if fm == nil {
+			return
+		}
 		for k, v := range fm.tail {
 			if !scanner("", int(k), v) {
 				return
